@@ -171,7 +171,15 @@ func (c *Ctx) Sample(s interface{}) {
 func (c *Ctx) Note(format string, a ...interface{}) {
 	c.Res.Notes = append(c.Res.Notes, fmt.Sprintf(format, a...))
 }
+// RunContext tags the search-stage violations of whole runs ("run:<context>:…") while it is non-empty; set by the
+// in-process runner (proj.Run) for a run that raised the model's own transport-instability flag.
+var RunContext string
+
 func (c *Ctx) Violate(stage, sig, what string, replay interface{}) {
+	if RunContext != "" && stage == "search" && strings.HasPrefix(sig, "run:") && !strings.HasPrefix(sig, "run:"+RunContext+":") {
+		sig = "run:" + RunContext + ":" + sig[4:]
+		what = "[after the run raised its transport-instability flag] " + what
+	}
 	for _, v := range c.Res.Violations {
 		if v.Signature == sig && v.Stage == stage {
 			return // one replay per signature
